@@ -167,3 +167,52 @@ Proof.
   { unfold fr, rnew. cbn [rbuf rpos rerr]. f_equal. lia. }
   rewrite Hfr0, (F pre post Hs). unfold fr. rewrite B, He. reflexivity.
 Qed.
+
+(* ---------------------------------------------------------------- reader programs: the pair in the form the decoders use it *)
+Theorem prog_pair_agree : forall A (p : sprog A) (consult : bool) body a s', local_prog p -> zlen body < two62 ->
+  run_sprog p (rnew body) = Ok (a, s') -> rerr s' = false ->
+  forall pre post, zlen (pre ++ body ++ post) < two63 ->
+    prog_body_r consult p body = Ok a /\
+    prog_sr p (mkR (pre ++ body ++ post) (zlen pre) false) = Ok (a, mkR (pre ++ body ++ post) (zlen pre + rpos s') false).
+Proof.
+  intros A p consult body a s' Hl Hb E He pre post Hs. split.
+  - unfold prog_body_r. rewrite E. cbn [rbind]. rewrite He, andb_false_r. reflexivity.
+  - unfold prog_sr. rewrite (delegate_sound A p body a s' Hl Hb E He pre post Hs). cbn [rbind rerr]. reflexivity.
+Qed.
+
+Lemma mfhd_local : local_prog mfhd_prog_sr.
+Proof. split; [reflexivity|]. intros v. split; [reflexivity|]. intros w. exact I. Qed.
+
+Lemma tfdt_local : local_prog tfdt_prog_sr.
+Proof.
+  split; [reflexivity|]. intros v. destruct (vN v / 16777216 =? 0)%N; (split; [reflexivity|]); intros w; exact I.
+Qed.
+
+Lemma opt_read_local present o k : local_op o = true -> (forall x, local_prog (k x)) -> local_prog (opt_read present o k).
+Proof. intros Ho Hk. unfold opt_read. destruct present; [split; [exact Ho|intros v; apply Hk]|apply Hk]. Qed.
+
+Lemma tfhd_local : local_prog tfhd_prog.
+Proof.
+  split; [reflexivity|]. intros vf. split; [reflexivity|]. intros tid.
+  apply opt_read_local; [reflexivity|]. intros bdo. apply opt_read_local; [reflexivity|]. intros sdi.
+  apply opt_read_local; [reflexivity|]. intros dur. apply opt_read_local; [reflexivity|]. intros dsz.
+  apply opt_read_local; [reflexivity|]. intros dfl. exact I.
+Qed.
+
+(* mfhd: the two separately written decoders agree on every body of at least 8 bytes (shorter bodies: DecodeMfhd returns a box with
+   zeros because it does not consult its reader's error, DecodeMfhdSR fails or reads on; such a box is never reproduced) *)
+Theorem mfhd_pair_agree : forall body pre post, 8 <= zlen body < two62 -> zlen (pre ++ body ++ post) < two63 ->
+  exists a, prog_body_r false mfhd_prog_r body = Ok a /\
+            prog_sr mfhd_prog_sr (mkR (pre ++ body ++ post) (zlen pre) false) = Ok (a, mkR (pre ++ body ++ post) (zlen pre + 8) false).
+Proof.
+  intros body pre post Hb Hs.
+  assert (L0 : rlen (rnew body) = zlen body) by reflexivity.
+  destruct (read_fixed_in 4 (rnew body) eq_refl ltac:(cbn; lia) ltac:(lia) ltac:(rewrite L0; cbn [rnew rpos]; lia)) as [v1 [E1 _]].
+  set (s1 := with_pos (rnew body) (rpos (rnew body) + 4)) in *.
+  destruct (read_fixed_in 4 s1 eq_refl ltac:(cbn; lia) ltac:(lia) ltac:(unfold rlen; cbn; lia)) as [v2 [E2 _]].
+  set (s2 := with_pos s1 (rpos s1 + 4)) in *.
+  assert (E : run_sprog mfhd_prog_sr (rnew body) = Ok ([v1 / 16777216; N.land v1 flags_mask; v2]%N, s2)).
+  { unfold mfhd_prog_sr. cbn [run_sprog rstep]. rewrite E1. cbn [rbind fst snd]. rewrite E2. cbn [rbind fst snd vN]. reflexivity. }
+  eexists. change mfhd_prog_r with mfhd_prog_sr.
+  apply (prog_pair_agree _ mfhd_prog_sr false body _ s2 mfhd_local ltac:(lia) E eq_refl pre post Hs).
+Qed.
